@@ -138,6 +138,21 @@ Theorem scale_location_affine :
 Proof. exact smooth1_scale_loc. Qed.
 Print Assumptions scale_location_affine.
 
+(* the constructor stores scale and location as given (source tie) and 0 is a scale like any
+   other: the output is the location everywhere; the defaults are scale 1, location 0 *)
+Theorem source_constructor_is_model :
+  src_ctor_stores_arguments = true /\ src_default_fwhm = default_fwhm /\
+  src_default_scale = default_scale /\ src_default_location = default_location.
+Proof. exact src_ctor_ok. Qed.
+Print Assumptions source_constructor_is_model.
+
+Theorem zero_scale_gives_location :
+  forall n k x kap loc p,
+  (smooth1 n k x kap 0 loc p == loc)%Q /\
+  (smooth1 n k x kap default_scale default_location p == smooth1 n k x kap 1 0 p)%Q.
+Proof. intros. split; [apply smooth1_zero_scale|apply smooth1_defaults]. Qed.
+Print Assumptions zero_scale_gives_location.
+
 (* shift equivariance for ARBITRARY data: y is x moved by d >= 0 voxels (read
    backwards: by -d), both inside the grid: the smoothed y is the smoothed x
    moved by d, on every output voxel where both are defined. *)
@@ -411,6 +426,12 @@ Theorem integrate_constant_field :
   integrate root wedge vox = ((r * rsum (map snd vox))%R, resel2fwhm root wedge r, rsum (map snd vox)).
 Proof. exact integrate_constant. Qed.
 Print Assumptions integrate_constant_field.
+
+Theorem resel_conversions_of_zero :
+  forall (D : nat) (root : R -> R) w, (0 < D)%nat -> root 0%R = 0%R ->
+  fwhm2resel D w 0 = 0%R /\ resel2fwhm root w 0 = 0%R.
+Proof. intros D root w HD H0. split; [apply fwhm2resel_zero; exact HD|apply resel2fwhm_zero; exact H0]. Qed.
+Print Assumptions resel_conversions_of_zero.
 
 (* the executable determinant used by the correspondence, on the flipped 2 x 3 x 4 mm affine *)
 Example qdet_flipped : qdet [[(-2)%Q; 0%Q; 0%Q; 5%Q]; [0%Q; 3%Q; 0%Q; 1%Q]; [0%Q; 0%Q; 4%Q; 0%Q]; [0%Q; 0%Q; 0%Q; 1%Q]] = (-24)%Q.
